@@ -58,6 +58,15 @@ func clusterScenarios(depth int, trailing []uint64, bulks bool) []cx.Scenario {
 			}
 		}
 	}
+	// the seed node (started with the bootstrap flag) is restarted, as leader and after it handed leadership over
+	add1, add2 := cx.Event{Kind: "add", K: 1}, cx.Event{Kind: "add", K: 2}
+	for _, evs := range [][]cx.Event{
+		{add1, {Kind: "bounce0"}, add1},
+		{add2, {Kind: "transfer"}, add1, {Kind: "bounce0"}, add1},
+		{add1, {Kind: "snapshot"}, add2, {Kind: "bounce0"}, add1, {Kind: "transfer"}, add1},
+	} {
+		out = append(out, cx.Scenario{Events: evs, TrailingLogs: 10240})
+	}
 	gen = func(cur []cx.Event, adds int, down bool, stops, snaps, transfers int) {
 		if len(cur) > 0 && adds > 0 && (stops > 0 || snaps > 0 || transfers > 0) {
 			for _, t := range trailing {
